@@ -171,8 +171,17 @@ func (r *run) ctl() {
 	// (see pump: a full queue plus a poll wedges the library on a mutex and with
 	// it the simulated clock; in real time the reader would simply catch up).
 	readerIdle := r.waitReaderIdle()
+	for i := 0; i < 1000 && readerIdle; i++ {
+		// a slow link may still be delivering what the script wrote long ago
+		s := r.session()
+		if s == nil || s.InFlight() == 0 {
+			break
+		}
+		r.pause(quiet)
+		readerIdle = r.waitReaderIdle()
+	}
 	r.mu.Lock()
-	if s := r.sess; s != nil && r.have && readerIdle && r.pumpDone && r.readStarted {
+	if s := r.sess; s != nil && r.have && readerIdle && r.pumpDone && r.readStarted && s.InFlight() == 0 {
 		// everything the TNC sent has had time to arrive and the reader is waiting
 		// for more: what it has not got by now it will never get
 		r.settled = true
